@@ -985,6 +985,24 @@ def _check(ctx, rng, R, k, prec, names_sx, I):
             ctx.violation(key, "precision=%s; %s" % (N, desc), "re-entry text %r evaluates to the value" % rt[:120], problem,
                           how + "; then execute(stringify_result(result_box.value, True)) in a fresh environment")
     prec.set(6)
+    # results that come straight out of == / != / in on kinds without an ordering (strings, arrays, mixed): whichever of 0 and 1 the
+    # answer is, it is a NUMBER — displayed as digits, element-wise inside arrays, and its re-entry text is valid Ka for the same value
+    import re as _re
+    for text in ['"a" == "a"', '"a" != "a"', '"a" == "b"', "{1, 2} == {1, 2}", "{1, 2} != {2, 1}", '"a" == 1', "{1} == 1", '{"a" == "a", 7}', '{{"a" != "b"}, {1, 2} == {1, 2}}',
+                 '"a" in {"a", "b"}', "{1} in {{1}, {2}}", '("a" == "a") + 1', '{("x" == "x") * 3, "x" == "y"}', "#2020-01-01# == \"a\"", "[1, 2] == \"a\"", "x = \"a\" == \"a\"; x"]:
+        r = R.execute(text)
+        ctx.count("cmp-result:" + text, bucket="results of == / != / in on unordered kinds")
+        if r["status"] != 0 or r["escaped"] or r["value"] is None:
+            continue
+        shown = r["out"].strip()
+        if not _re.fullmatch(r"[0-9{}, ]+", shown):
+            ctx.violation("display:comparison-result", text, "digits (0 / 1), element-wise", shown[:80], "execute(%r)" % text)
+            continue
+        rs2 = call(I.stringify_result, r["value"], brackets_for_frac=True)
+        back = R.execute(rs2[1], brackets_for_frac=True) if rs2[0] == "ok" else None
+        if back is None or back["status"] != 0 or back["escaped"] or back["out"] != r["out"]:
+            ctx.violation("reentry:comparison-result", text, "re-entry text that evaluates to the value shown as %s" % shown,
+                          "%r -> %s" % (rs2[1] if rs2[0] == "ok" else rs2, "none" if back is None else (back["out"].strip() or back["err"].strip()[:80])), "execute(stringify_result(value, True))")
     # the re-entry text goes back into the SAME session (that is where the GUI puts it): a session whose variables are named like
     # units — also like the base-unit symbols the display spells results with — must get the value back from it
     import namespace_common
